@@ -175,7 +175,7 @@ func (s *Script) TxsFor(i int, rctx sdk.Context) []Tx {
 			if lvl == 3 {
 				l = 7
 			}
-			add(v.Actor, &palomatypes.MsgAddStatusUpdate{Status: "hello", Level: l, Metadata: world.Meta(v.Actor), Args: []palomatypes.MsgAddStatusUpdate_KeyValuePair{{Key: "k", Value: "v"}}})
+			add(v.Actor, &palomatypes.MsgAddStatusUpdate{Status: "hello", Level: l, Metadata: world.Meta(v.Actor), Args: []palomatypes.MsgAddStatusUpdate_KeyValuePair{{Key: "k", Value: "v"}, {Key: "", Value: "no key"}, {Key: "k", Value: ""}}})
 		}
 	case 5:
 		// deposits: three validators see event 1 as (U1, 50), one sees (U1, 51)
@@ -319,6 +319,11 @@ func (s *Script) react(i int, rctx sdk.Context) []Tx {
 						// the last validator did not see the transaction succeed
 						add(v.Actor, world.Evidence(v, q, m.GetId(), &evmtypes.SmartContractExecutionErrorProof{ErrorMessage: "not found"}))
 						continue
+					}
+					if m.GetId()%4 == 1 {
+						// a correction: the validator first reports that it did not find the transaction and
+						// then, in the same block, reports the delivery (its later evidence replaces the earlier)
+						add(v.Actor, world.Evidence(v, q, m.GetId(), &evmtypes.SmartContractExecutionErrorProof{ErrorMessage: "not found yet"}))
 					}
 					key := fmt.Sprintf("%s/%d", q, m.GetId())
 					p := s.proofs[key]
